@@ -1986,6 +1986,7 @@ class MapResult(ApplyResult):
         self._accepted = [False] * length
         self._worker_pid = [None] * length
         self._time_accepted = [None] * length
+        self._parts_done = set()
         self._chunksize = chunksize
         if chunksize <= 0:
             self._number_left = 0
@@ -1997,6 +1998,9 @@ class MapResult(ApplyResult):
     def _set(self, i, success_result):
         success, result = success_result
         if success:
+            if i in self._parts_done:
+                return      # duplicate message: this part is finished
+            self._parts_done.add(i)
             self._value[i * self._chunksize:(i + 1) * self._chunksize] = result
             # the worker that ran this part no longer holds an unfinished
             # part of the job: its exit (e.g. recycling) must not count
@@ -2055,6 +2059,7 @@ class IMapIterator:
         self._length = None
         self._ready = False
         self._unsorted = {}
+        self._parts_done = set()
         self._worker_pids = {}      # index of an unfinished part -> worker pid
         self._lost_worker_timeout = lost_worker_timeout
         cache[self._job] = self
@@ -2090,6 +2095,10 @@ class IMapIterator:
         with self._cond:
             if i is None:
                 i = self._lost_part()
+            elif i in self._parts_done:
+                return      # duplicate message: this part is finished
+            else:
+                self._parts_done.add(i)
             self._worker_pids.pop(i, None)
             if self._index == i:
                 self._items.append(obj)
@@ -2175,6 +2184,10 @@ class IMapUnorderedIterator(IMapIterator):
         with self._cond:
             if i is None:
                 i = self._lost_part()
+            elif i in self._parts_done:
+                return      # duplicate message: this part is finished
+            else:
+                self._parts_done.add(i)
             self._worker_pids.pop(i, None)
             self._items.append(obj)
             self._index += 1
